@@ -245,7 +245,16 @@ def run_case(ctx, seed, idx):
         peer = clientfix.Peer().ready()
         conn = peer.proto
         try:
-            conn.exportObject(obj)
+            if idx % 4 == 3:
+                # the object moves between connections of the process (reconnect): exported on an old connection first,
+                # then on this one, then withdrawn from the old one - this connection serves it from then on
+                old_peer = clientfix.Peer().ready()
+                old_peer.proto.exportObject(obj)
+                conn.exportObject(obj)
+                old_peer.proto.unexportObject('/p')
+                ctx.count('objects_moved_between_connections')
+            else:
+                conn.exportObject(obj)
         except Exception as e:
             ctx.report('export-raised', 'exportObject raised %r for an object whose properties were all assigned' % e, w, case)
             return
